@@ -143,9 +143,11 @@ func tokenToValue(t json.Token) (Canonicalable, error) {
 		if i, err := n.Int64(); err == nil {
 			return Integer(i), nil
 		}
-		if f, err := n.Float64(); err == nil {
-			return Float(f), nil
+		f, err := n.Float64()
+		if err != nil {
+			return nil, fmt.Errorf("number %s: %w", n, err)
 		}
+		return Float(f), nil
 	}
 	if b, ok := t.(bool); ok {
 		return Bool(b), nil
